@@ -49,7 +49,8 @@ META = {
         ref="DESIGN.md §4 C06"),
     "C07": dict(
         text="static: on every path that stores the output signature, request creation, perform, authenticated response, "
-             "request-id match, status conversion, builder close and verification with the requested hash were passed",
+             "request-id match, status conversion, builder close and verification with the requested hash were passed; the chain list is "
+             "sorted before the level goes onto its first chain; the chains close() edits in place are private copies, not the reply's objects",
         note="decides the must-pass chain on all signing paths; acceptance of honest replies is not decided",
         tech="static analysis: must-pass guards with inter-procedural OK-summaries",
         ref="DESIGN.md §4 C07"),
@@ -103,14 +104,18 @@ META = {
     "C15": dict(
         text="static: each consolidation predicate's discard condition equals 'absent, zero or outside the documented range'; "
              "update direction max/min per field; fan-out counts one expected response per accepting endpoint; decision tables of "
-             "the valid-response / error-response handlers (first response wins, error only when nobody is left); recycled request reset",
-        note="decides consolidation and the per-event handler tables; interleavings of events across endpoints are not enumerated",
+             "the valid-response / error-response handlers (first response wins, error only when nobody is left); recycled request reset; "
+             "a configuration-only request is completed exactly once over every order of configuration / unchanged configuration / failure "
+             "events for 2 and 3 endpoints (handler histories)",
+        note="decides consolidation, the per-event handler tables and, for configuration requests, all event orders of up to 3 endpoints; "
+             "interleavings for signing requests are decided per event, not per history",
         tech="static analysis: finite abstract evaluation over order regions of the compared constants",
         ref="DESIGN.md §4 C15"),
     "C16": dict(
         text="static: level refusal guards (closing level predicted with and without a configured maximum), height prediction fold table, "
              "insertNode and close tables (forest unchanged / nothing lost on failure), level removed when a leaf's chain is put in front, "
-             "ownership on error paths of the tree builder, constructor/reset agreement of the block signer including leaf-processor order",
+             "ownership on error paths of the tree builder, constructor/reset agreement of the block signer including leaf-processor order, "
+             "addLeaf all-or-nothing table (a failing step leaves no leaf in the tree and the mask chain where it was)",
         note="decides refusal and agreement clauses; validity of every extracted proof is not decided",
         tech="static analysis: error-on-condition + sibling agreement (constructor vs reset) + call-sequence",
         ref="DESIGN.md §4 C16"),
@@ -131,8 +136,10 @@ META = {
         text="static: allocation results are checked before use; every error exit after an acquisition releases what the "
              "function owns exactly once; failures are reported (no dropped status); released fields are reassigned (a callee that "
              "stores only on success reassigns on the success edge only); constructors initialise what their destructor reads; a "
-             "reference taken is never discarded",
-        note="decides ownership / NULL-check / status rules on every exit of every function; third-party libraries are trusted",
+             "reference taken is never discarded; all-or-nothing decision tables for the multi-step updates found by the commit-then-fail "
+             "scan (parallel lists of the context, builder close with a root level, level-correction update)",
+        note="decides ownership / NULL-check / status rules on every exit of every function and 'unchanged after a refused call' for the "
+             "tabled functions; that repeating ANY operation gives the fault-free result is decided only where a table exists; third-party libraries are trusted",
         tech="static analysis: ownership typestate over the goto-cleanup CFG + status hygiene",
         ref="DESIGN.md §4 C19"),
     "C20": dict(
